@@ -1,7 +1,7 @@
 (** Property C02 — every produced MOC is in canonical form.  Statements only. *)
 From Coq Require Import List NArith.
 From MOC.Base Require Import RangeSet.
-From MOC.Model Require Import Qty Ops1D Expr.
+From MOC.Model Require Import Qty Ops1D Expr BuilderSM2 EagerUnary.
 Import ListNotations.
 Open Scope N_scope.
 
@@ -38,7 +38,20 @@ Example C02_nonvacuous :
    = (3, [(0, 1048576); (4194304, 805306368)]).
 Proof. split; [apply leaves_validb_spec; vm_compute; reflexivity|vm_compute; reflexivity]. Qed.
 
+(** the constructors AS WRITTEN: Ranges::new_from_sorted (MergeOverlappingRangesIter: curr.start <=
+    prev.end => prev.end = max) on a start-sorted list of non-empty ranges, and Ranges::new_from with
+    ANY sorting function that permutes its input and sorts it by start, return the canonical form *)
+Theorem C02_new_from_sorted_as_written : forall l, by_start 0 l -> NonEmptyR l -> merge_sorted l = canon_of l.
+Proof. exact new_from_sorted_eq_spec. Qed.
+
+Theorem C02_new_from_as_written : forall sortf : list range -> list range,
+  (forall l r, In r (sortf l) <-> In r l) -> (forall l, by_start 0 (sortf l)) ->
+  forall l, NonEmptyR l -> merge_sorted (sortf l) = canon_of l.
+Proof. exact new_from_eq_spec. Qed.
+
 Print Assumptions C02_validity_checker_exact.
 Print Assumptions C02_compositions_are_canonical.
 Print Assumptions C02_equal_iff_same_set.
 Print Assumptions C02_canon_of.
+Print Assumptions C02_new_from_sorted_as_written.
+Print Assumptions C02_new_from_as_written.
